@@ -11,7 +11,8 @@ def whole_op_cases(rng, tier, big):
     counts = [0, 1, 2, 3, 255, 256, 257, 65535] if big else [1, 2, 3, 5, 17]
     for op, (name, d) in OPS.items():
         rep = op >= 0xB0
-        for cnt in counts + [rng.below(400) + 1 for _ in range(3 if big else 6)]:
+        extra = (3 if big else 6) * (1 if tier == "quick" else 12)
+        for cnt in counts + [rng.below(400) + 1 for _ in range(extra)] + ([rng.below(65536) for _ in range(4)] if (big and tier != "quick") else []):
             if big and cnt in (0, 65535) and not rng.chance(1, 3 if tier == "quick" else 1):
                 continue
             st = cases.rand_state(rng)
